@@ -647,13 +647,15 @@ class CompositeFrame(CoordinateFrame):
         else:
             raise ValueError("Incorrect number of arguments")
 
-        qs = []
+        # return the quantities in the order of the world axes (``axes_order``)
+        # rather than in the order the frames are listed
+        qs = [None] * self.naxes
         for _frame, arg in zip(self.frames, args):
             ret = _frame.coordinate_to_quantity(arg)
-            if isinstance(ret, tuple):
-                qs += list(ret)
-            else:
-                qs.append(ret)
+            if not isinstance(ret, tuple):
+                ret = (ret,)
+            for ind, q in zip(_frame.axes_order, ret):
+                qs[ind] = q
         return qs
 
     @property
